@@ -653,7 +653,10 @@ def cell_ok(got, v, frm, to, dtype):
         return math.isinf(got) and abs(Fraction(v) * f) >= top and (got > 0) == (v > 0)
     f = exact_factor(frm, to)
     exact = Fraction(v) * f
-    fe = float(exact)
+    try:
+        fe = float(exact)
+    except OverflowError:      # the exact product is beyond float64 but the implementation returned a finite number
+        return False
     if dtype == "float32":
         ulp = float(np.spacing(np.float32(abs(fe)))) if abs(fe) < 3e38 else math.ulp(fe)
     else:
@@ -1039,6 +1042,13 @@ class History:
                              "the model draws the rows with exactly one rng.choice(n_rows, size=size, replace=False)")
                 return
         if exp is not None:
+            if req["sel"]["kind"] == "random" and m.get("err") == "choice" and not req["sel"]["own_rng"]:
+                # the generator was not asked for choice(n_rows, size, replace=False): the model cannot follow
+                if not self.dead:
+                    ctx.mismatch("read_batch=Store.readBatch", self.g, self.inp(dict(op_no=o["op_no"])),
+                                 dict(generator_call=o["rec"]), m,
+                                 "the model draws the rows with exactly one rng.choice(n_rows, size=size, replace=False)")
+                return
             if m.get("err") != exp:
                 raise Infra(f"Lean model and generator disagree on a refused batch: model {m.get('err')}, expected {exp} "
                             f"(case {self.g}, op {o['op_no']})")
@@ -1202,7 +1212,7 @@ def plan(ctx):
     if ctx.thorough:
         n = dict(hist=1500, batch=300, fits=250)
     else:
-        n = dict(hist=130, batch=24, fits=24)
+        n = dict(hist=170, batch=30, fits=30)
     return [(k, i) for k in ("hist", "batch", "fits") for i in range(n[k])]
 
 
